@@ -18,6 +18,18 @@
 #endif
 #include "wasmref.h"
 
+/* the harness' own allocations always use the real allocator: a check may rename realloc for the TRANSLATED code (-Drealloc=..., an allocator
+   that refuses large requests), and that define is seen by this file too */
+#ifdef realloc
+#pragma push_macro("realloc")
+#undef realloc
+extern void *realloc(void *, size_t);
+static void *ls_sys_realloc(void *p, size_t n) { return realloc(p, n); }
+#pragma pop_macro("realloc")
+#else
+#define ls_sys_realloc realloc
+#endif
+
 typedef void (*ls_tramp)(void *fn, void *inst, const uint64_t *args, uint64_t *res);
 typedef struct ls_func {
     const char *name;      /* export name in the module */
@@ -328,7 +340,7 @@ static int ls_main_bfs(int argc, char **argv, const ls_func *funcs, int nfuncs, 
                   if (found) continue;
                   seen[pos] = h; nseen++; states++;
                   if (nseen * 2 > seencap) { uint64_t *ns = (uint64_t *)calloc(seencap * 2, 8); size_t q; for (q = 0; q < seencap; q++) if (seen[q]) { size_t p2 = seen[q] & (seencap * 2 - 1); while (ns[p2]) p2 = (p2 + 1) & (seencap * 2 - 1); ns[p2] = seen[q]; } free(seen); seen = ns; seencap *= 2; }
-                  if (nnext == capnext) { capnext *= 2; next = (ls_hist *)realloc(next, capnext * sizeof *next); }
+                  if (nnext == capnext) { capnext *= 2; next = (ls_hist *)ls_sys_realloc(next, capnext * sizeof *next); if (!next) { printf("ERROR harness out of memory\n"); exit(2); } }
                   next[nnext] = front[fi]; next[nnext].op[next[nnext].n++] = (unsigned short)oi; nnext++; }
             }
         }
